@@ -2,7 +2,7 @@
 # Build /repo's working tree with repository defaults (guard ASL_VERIF off) in a scratch directory and run the
 # repository's own test suite; prints the ctest summary.  Exit status = ctest's.
 set -e
-D=$(mktemp -d /tmp/asl-verif-baseline.XXXXXX)
+D=$(mktemp -d /tmp/asl-verif-baseline-XXXXXX)
 trap 'rm -rf "$D"' EXIT
 cmake -G Ninja -S /repo -B "$D" >/dev/null
 cmake --build "$D" -j"$(nproc)" >/dev/null 2>&1
